@@ -174,6 +174,104 @@ def programs(tier):
                     yield gid, label, setup, [(render_call(c), text, bname, expected[c]) for c, (text, bname) in zip(CALLS, calls)]
 
 
+def known(c):
+    return not any(T.has_unknown(a) for a in c)
+
+
+def extra_programs(tier):
+    """placements in which several call sites share a scope: the set grows between call sites (interleaved), members spread over
+    three scope levels with every resolvable call made from one innermost body (levels), calls from inside a generic function
+    whose own type parameter is an argument type (generic-host)"""
+    gid = 2 * 10 ** 6
+    keys = [a[0] for a in ALPHABET]
+    sets = []
+    for k in (1, 2, 3):
+        for i, s in enumerate(itertools.combinations(keys, k)):
+            if k == 3 and tier == 'quick' and i % 9:
+                continue
+            sets.append(s)
+    KC = [c for c in CALLS if known(c)]
+    for s in sets:
+        # interleaved: every declaration order; after each declaration every call is made again
+        for oi, order in enumerate(itertools.permutations(s)):
+            if tier == 'quick' and oi > 1:
+                continue
+            gid += 1
+            name = 'ov%d' % gid
+            setup = []
+            calls = []
+            for p in range(1, len(order) + 1):
+                cands = [ALPHA[k] for k in order[:p]]
+                d = decl(name, ALPHA[order[p - 1]])
+                for j, c in enumerate(KC):
+                    text = (d if j == 0 else '') + 'let c%d_%d_%d = %s(%s);' % (gid, p, j, name, ', '.join(witness(a) for a in c))
+                    if j == 0:
+                        # the declaration travels with the first call of its round; if that call is a compile error the declaration
+                        # would be lost, so it gets its own feed
+                        calls.append(('decl#%d' % p, d, None, 'DECL'))
+                        text = 'let c%d_%d_%d = %s(%s);' % (gid, p, j, name, ', '.join(witness(a) for a in c))
+                    calls.append(('after-%d:%s' % (p, render_call(c)), text, 'c%d_%d_%d' % (gid, p, j), resolve(cands, c)))
+            yield gid, '%s|order=%s|interleaved' % ('+'.join(s), ','.join(order)), setup, calls
+        # levels
+        assigns = list(itertools.product((0, 1, 2), repeat=len(s)))
+        for ai, lv in enumerate(assigns):
+            if tier == 'quick' and len(s) == 3 and ai % 4:
+                continue
+            gid += 1
+            name = 'ov%d' % gid
+            by = {0: [], 1: [], 2: []}
+            for k, l in zip(s, lv):
+                by[l].append(k)
+            all_c = [ALPHA[k] for k in s]
+            l01 = [ALPHA[k] for k in by[0] + by[1]]
+            ok_all = [c for c in KC if resolve(all_c, c) not in ('AmbiguousOverload', 'NoOverload', T.UNSPEC)]
+            ok_01 = [c for c in KC if resolve(l01, c) not in ('AmbiguousOverload', 'NoOverload', T.UNSPEC)]
+
+            def joined(cs):
+                return ' + "," + '.join(['"J:"'] + ['%s(%s)' % (name, ', '.join(witness(a) for a in c)) for c in cs])
+            text = ''.join(decl(name, ALPHA[k]) for k in by[0]) + \
+                'fn h%d()->str{ %sfn k%d()->str{ %s%s } k%d() + "|" + %s } let c%d = h%d();' % (
+                    gid, ''.join(decl(name, ALPHA[k]) for k in by[1]), gid, ''.join(decl(name, ALPHA[k]) for k in by[2]), joined(ok_all), gid, joined(ok_01), gid, gid)
+            exp = ','.join(['J:'] + [resolve(all_c, c) for c in ok_all]) + '|' + ','.join(['J:'] + [resolve(l01, c) for c in ok_01])
+            yield gid, '%s|levels=%s' % ('+'.join(s), ''.join(map(str, lv))), [], [('all-resolvable-calls', text, 'c%d' % gid, exp)]
+    # generic host: the caller's type parameter is an argument type
+    HOST = ('cmp', 'HostT', ())
+    top_pool = ['g_T', 'g_T_T', 'n_int', 'n_str', 'g_seqT', 'g_A_B', 'g_T_int']
+    nested_pool = [('nh_T', [], [(HOST, False)]), ('nh_T_T', [], [(HOST, False), (HOST, False)]), ('nh_seqT', [], [(nat('Sequence', HOST), False)]), ('nh_T_int', [], [(HOST, False), ('int', False)])]
+    hcalls = [(HOST,), (HOST, HOST), (nat('Sequence', HOST),), (HOST, 'int'), ('int',)]
+    hwit = {HOST: 'x', nat('Sequence', HOST): '[x]', 'int': '1'}
+    for kt in (0, 1, 2):
+        for ts in itertools.combinations(top_pool, kt):
+            for kn in (0, 1, 2):
+                for ns in itertools.combinations(nested_pool, kn):
+                    if kt + kn == 0:
+                        continue
+                    for gname in ('T', 'U'):
+                        gid += 1
+                        name = 'ov%d' % gid
+                        cands = [ALPHA[k] for k in ts] + list(ns)
+                        top = ''.join(decl(name, ALPHA[k]) for k in ts)
+                        nested = ''
+                        for key, gens, params in ns:
+                            def rt(t):
+                                if t == HOST:
+                                    return gname
+                                if isinstance(t, tuple) and t[0] == 'nat':
+                                    return '%s<%s>' % (t[1], ', '.join(rt(a) for a in t[2]))
+                                return render(t)
+                            nested += 'fn %s(%s)->str{ "%s" } ' % (name, ', '.join('y%d: %s' % (i, rt(t)) for i, (t, o) in enumerate(params)), key)
+                        calls = []
+                        for j, c in enumerate(hcalls):
+                            exp = resolve(cands, c)
+                            text = '%sfn gh%d_%d<%s>(x: %s)->str{ %s%s(%s) } let c%d_%d = gh%d_%d(5); let e%d_%d = gh%d_%d("a");' % (
+                                top if j == 0 else '', gid, j, gname, gname, nested, name, ', '.join(hwit[a] for a in c), gid, j, gid, j, gid, j, gid, j)
+                            if j == 0 and top:
+                                calls.append(('decl', top, None, 'DECL'))
+                                text = text[len(top):]
+                            calls.append(('generic-host:%s' % render_call(c).replace('HostT', gname), text, 'c%d_%d' % (gid, j), exp))
+                        yield gid, 'host<%s>|top=%s|nested=%s' % (gname, '+'.join(ts), '+'.join(n[0] for n in ns)), [], calls
+
+
 def render_call(c):
     return '(' + ', '.join(render(a) for a in c) + ')'
 
@@ -209,7 +307,8 @@ def _run_groups(groups):
     names = []
     for gid, label, setup, calls in groups:
         for ci, (clabel, text, bname, exp) in enumerate(calls):
-            steps.append({'op': 'get', 'name': bname}); names.append((gid, ci))
+            if bname is not None:
+                steps.append({'op': 'get', 'name': bname}); names.append((gid, ci))
     job = {'id': 0, 'limits': {}, 'steps': steps}
     rep = run_job(job, timeout=120.0)
     if 'fatal' in rep:
@@ -247,7 +346,7 @@ def run(tier):
                  'declaration orders x 4 placements over scope levels x alpha-renamings x a never-matching addition, and 3 standard-library '
                  'names with 0-2 user overloads; every call tuple of a %d-tuple pool; reference = non-generic matches, else generic matches; '
                  'one = its tag, several = AmbiguousOverload, none = NoOverload; non-trivial = distinct (set, order, placement, call)' % (len(ALPHABET), len(CALLS)))
-    groups = list(programs(tier)) + list(std_programs(tier))
+    groups = list(programs(tier)) + list(std_programs(tier)) + list(extra_programs(tier))
     rep.bounds['overload_groups'] = len(groups)
     rep.bounds['calls'] = sum(len(g[3]) for g in groups)
     results = {}
@@ -265,6 +364,11 @@ def run(tier):
                 rep.outcome('unspecified')
                 continue
             kind, v = results.get((gid, ci), ('missing', None))
+            if exp == 'DECL':
+                if kind != 'ok':
+                    rep.fail(Failure(PROP, 'C05|%s|%s|declaration-rejected' % (label, clabel), {'text': text}, 'the declaration compiles', '%s %s' % (kind, v),
+                                     {'id': 0, 'limits': {}, 'steps': [{'feed': text}]}))
+                continue
             sig = 'C05|%s|call=%s' % (label, clabel)
             if exp == STABLE:
                 # the observable outcome (error class, tag, or the propagated error) must not depend on order / placement / names
@@ -288,7 +392,7 @@ def run(tier):
                 got = v
             elif kind == 'ok':
                 got = v if isinstance(v, str) else repr(v)
-                if isinstance(v, str) and not (v.startswith('n_') or v.startswith('g_')):
+                if isinstance(v, str) and not v.startswith(('n_', 'g_', 'J:', 'nh_')):
                     got = 'std'
                 if exp.startswith('std_'):
                     exp = 'std'
